@@ -160,13 +160,14 @@ class TreeCheck:
                 V.inconc("planned_fault_not_reached")
             if viols:
                 first = True
+                case_replay = None
                 for sig, text in viols:
                     name = "s%d-%s-%05d" % (seed, tier, cov["evaluations"])
                     f = V.match_known(sig)
-                    replay = None
                     if f is None and first:
-                        replay = common.save_replay(self.prop, name, copy_dir=hist.dir)
+                        case_replay = common.save_replay(self.prop, name, copy_dir=hist.dir)
                         first = False
+                    replay = case_replay if f is None else None
                     elif f is not None and f["id"] not in known_replays:
                         known_replays.add(f["id"])
                         common.save_replay(self.prop, "known-" + f["id"], copy_dir=hist.dir)
